@@ -553,9 +553,13 @@ namespace chaiscript {
           for (auto stack_elem = stack.rbegin(); stack_elem != stack.rend(); ++stack_elem) {
             for (auto s = stack_elem->begin(); s != stack_elem->end(); ++s) {
               if (s->first == name) {
-                t_loc = static_cast<uint_fast32_t>(std::distance(stack.rbegin(), stack_elem) << 16)
-                    | static_cast<uint_fast32_t>(std::distance(stack_elem->begin(), s)) | static_cast<uint_fast32_t>(Loc::located)
-                    | static_cast<uint_fast32_t>(Loc::is_local);
+                const auto scope_distance = static_cast<uint_fast32_t>(std::distance(stack.rbegin(), stack_elem));
+                const auto slot = static_cast<uint_fast32_t>(std::distance(stack_elem->begin(), s));
+                // the position is only remembered when it fits the two fields of the hint; otherwise the
+                // name is searched for again next time
+                if (scope_distance <= (static_cast<uint_fast32_t>(Loc::stack_mask) >> 16) && slot <= static_cast<uint_fast32_t>(Loc::loc_mask)) {
+                  t_loc = (scope_distance << 16) | slot | static_cast<uint_fast32_t>(Loc::located) | static_cast<uint_fast32_t>(Loc::is_local);
+                }
                 return s->second;
               }
             }
